@@ -109,6 +109,8 @@ def once_table(ctx) -> None:
         g = cfg.cguards(r, fake.node)
         ok = len(g) == 2 and (f'isinstance({v}, str)', True) in g and any(t.startswith(f'{v} in ') and pol for t, pol in g)
         ctx.check(ok, 'C10.once-alias', fake, f'{core.src(r.value)} is returned for the strings of its own alias set only (guards {g})', r, key=f'alias-guard:{core.src(r.value)}')
+    got = sorted((core.dotted(r.value) or '').split('.')[-1] for r in rets)
+    ctx.check(got == sorted(STEMS), 'C10.once-alias', fake, f'every delivery guarantee has its spellings (members returned: {got})', fake.node, key='alias:all-members')
     low = [a for a in core.walk_local(fake.node) if isinstance(a, ast.Assign) and core.src(a.targets[0]) == v]
     ctx.check(len(low) == 1 and core.src(low[0].value) == f'{v}.lower()' and all(r.lineno > low[0].lineno for r in rets), 'C10.once-alias', fake, 'the spelling is matched case-insensitively', fake.node, key='alias:lower')
     last = fake.body[-1]
